@@ -162,7 +162,11 @@ def make_body(fn: dict, log, version: str = "", fail=None):
     fname = fn["name"]
     ret_none = bool(fn.get("ret_none")) and len(outs) == 1
 
+    resvar = fn.get("resvar")
+
     def body(**kw):
+        if resvar and resvar not in kw:  # what a real signature would do
+            raise TypeError(f"{fname}() missing 1 required keyword-only argument: '{resvar}'")
         args = [kw[o] for o in orig]
         if log is not None:
             log.append((fname, tuple(tv(a) for a in args)))
@@ -181,6 +185,8 @@ def make_body(fn: dict, log, version: str = "", fail=None):
     for o, p in zip(orig, params):
         d = fn["sig_defaults"].get(p, inspect.Parameter.empty)
         ps.append(inspect.Parameter(o, inspect.Parameter.KEYWORD_ONLY, default=d))
+    if fn.get("resvar"):  # the parameter through which pipefunc hands in the evaluated resources (not traced)
+        ps.append(inspect.Parameter(fn["resvar"], inspect.Parameter.KEYWORD_ONLY))
     body.__signature__ = inspect.Signature(ps)
     body.__name__ = fname
     body.__qualname__ = fname
@@ -205,6 +211,9 @@ def make_pipefunc(fn: dict, log, version: str = "", fail=None, **extra):
         kw["output_picker"] = dict_picker
     if fn.get("cache"):
         kw["cache"] = True
+    if fn.get("resvar"):
+        kw["resources"] = {"cpus": 2}
+        kw["resources_variable"] = fn["resvar"]
     kw.update(extra)
     return PipeFunc(body, on, **kw)
 
